@@ -8,7 +8,7 @@ from .c01 import segments
 from .c06 import main_loop_info, remaining_local
 
 RULES = {
-    "H1": "pairing: record_order_added exactly once on every path of add_order; record_order_removed exactly once on a path iff an order is taken and not re-inserted (cancel / price move), never otherwise (amend, not-found, error); record_execution exactly once per maker visit of match_order with the quantity remaining was lowered by (= the transaction quantity) and the level's price (or the maker's own price, equal under the level's contract)",
+    "H1": "pairing: record_order_added exactly once on every path of add_order; record_order_removed exactly once on a path iff an order is taken and not re-inserted (cancel / price move), never otherwise (amend, not-found, error); record_execution exactly once per maker visit of match_order with the quantity remaining was lowered by (= the transaction quantity) and the level's price",
     "H2": "what the counters do: record_order_added/removed/execution only fetch_add on their own fields with (1), (1), (1, quantity, quantity*price); no load/store split of the four counters the property names; the getters load the field they name",
     "H3": "(thorough) no target of the workspace writes the pub atomic fields of PriceLevelStatistics outside statistics.rs",
     "H0": "coverage",
@@ -25,7 +25,7 @@ def run(ctx, chk):
         "which operand terms the statistics recorders are called) and a direct inspection of the recorder/getter bodies "
         "(which atomic, which operation, which operand). Lost updates under contention are excluded structurally: every "
         "update of the four named counters is a single fetch_add. Nothing is executed.")
-    chk.assumptions = ["orders rest at their level's price (so maker price == level price)", "quantity*price does not overflow (property precondition)",
+    chk.assumptions = ["quantity*price does not overflow (property precondition)",
                        "callers do not write the pub atomic fields directly (checked for the repository's own targets in the thorough tier)"]
     L = LevelAnalysis(ctx)
     db = ctx.db
@@ -94,8 +94,8 @@ def run(ctx, chk):
         txq = txs[0][2][4] if txs else Int(0)
         okq, why = prove_zero(affine(q).add(affine(txq), -1), r.facts)
         chk.require(okq, "H1", key + ":quantity", ev[0][5], "record_execution quantity %s differs from the transaction quantity %s (%s)" % (short(q), short(txq), why), describe_path(r))
-        okp = p == price_self or p == ("field", o, v, L.R.price_field.get(v))
-        chk.require(okp, "H1", key + ":price", ev[0][5], "record_execution price %s is neither the level's price nor the maker's price" % short(p), describe_path(r))
+        okp = p == price_self
+        chk.require(okp, "H1", key + ":price", ev[0][5], "record_execution price %s is not the level's price (the price the transaction of the same fill is reported at)" % short(p), describe_path(r))
     chk.require(nvis >= 10, "H0", fn, b.span, "%d maker visits analysed" % nvis)
 
     # ---------------- H2 recorder bodies
